@@ -98,7 +98,7 @@ def _unhex(s):
 
 
 def parse_strace(path, root):
-    """-> list of events in completion order. Paths relative to root; everything outside root is dropped
+    """-> list of events in syscall-entry order. Paths relative to root; everything outside root is dropped
     except the driver's marks.  Events:
       ('mark', text) ('mkdir', p) ('create', p) ('write', p, bytes) ('fsync', p, syscall) ('fsyncdir', p)
       ('close', p) ('rename', a, b) ('unlink', p) ('rmdir', p) ('link', a, b) ('other', text)"""
@@ -115,12 +115,21 @@ def parse_strace(path, root):
             if rest.startswith("---") or rest.startswith("+++"):
                 continue
             if rest.endswith("<unfinished ...>"):
-                pending[pid] = rest[:-len("<unfinished ...>")]
+                # the call takes the position of its ENTRY: it has no effect before that, and a thread that has
+                # observed its effect (the driver waiting for gc.clean / removals before the next mark) enters its
+                # own next call later; the exit line can be logged late when the machine is loaded
+                pending[pid] = (len(calls), rest[:-len("<unfinished ...>")])
+                calls.append(None)
                 continue
             m2 = re.match(r"<\.\.\. (\w+) resumed>(.*)", rest)
             if m2:
-                rest = pending.pop(pid, m2.group(1) + "(") + m2.group(2)
+                if pid in pending:
+                    idx, head = pending.pop(pid)
+                    calls[idx] = head + m2.group(2)
+                    continue
+                rest = m2.group(1) + "(" + m2.group(2)
             calls.append(rest)
+    calls = [c for c in calls if c is not None]
     ev = []
     fds = {}  # fd number -> (relpath, created)
 
@@ -385,11 +394,24 @@ class Ctx:
     def close(self):
         shutil.rmtree(self.scratch, ignore_errors=True)
 
+    @staticmethod
+    def _par_lines(exe, lines, env=None, parts=4, minchunk=120):
+        """run_lines, split over a few driver processes when there are many (independent) lines"""
+        if len(lines) < 2 * minchunk:
+            return vlib.run_lines(exe, lines, env=env)
+        from concurrent.futures import ThreadPoolExecutor
+        n = min(parts, len(lines) // minchunk)
+        size = (len(lines) + n - 1) // n
+        chunks = [lines[i:i + size] for i in range(0, len(lines), size)]
+        with ThreadPoolExecutor(len(chunks)) as ex:
+            outs = list(ex.map(lambda c: vlib.run_lines(exe, c, env=env), chunks))
+        return [x for o in outs for x in o]
+
     def lean_lines(self, lines):
-        return vlib.run_lines(self.lean, lines)
+        return self._par_lines(self.lean, lines)
 
     def go_lines(self, lines):
-        return vlib.run_lines(self.go, lines, env=vlib.goenv())
+        return self._par_lines(self.go, lines, env=vlib.goenv())
 
     def trace_history(self, ops):
         self.n += 1
